@@ -246,6 +246,42 @@ func noteNonce(m *macaroon.Macaroon) {
 	}
 }
 
+// TicketHelperFail: the ticket helpers (package-level TicketsForThirdParty / ThirdPartyTicket on the encoded token, the
+// methods on the parsed one) must hand out exactly the ticket bytes the third-party caveat carries
+var TicketHelperFail string
+
+func noteTicketHelpers(m *macaroon.Macaroon, c3 *macaroon.Caveat3P) {
+	if m == nil || TicketHelperFail != "" {
+		return
+	}
+	enc := rawEncode(m)
+	has := func(l [][]byte) bool {
+		for _, t := range l {
+			if bytes.Equal(t, c3.Ticket) {
+				return true
+			}
+		}
+		return false
+	}
+	var want [][]byte
+	for _, c := range macaroon.GetCaveats[*macaroon.Caveat3P](&m.UnsafeCaveats) {
+		if c.Location == c3.Location {
+			want = append(want, c.Ticket)
+		}
+	}
+	if l, err := macaroon.TicketsForThirdParty(enc, c3.Location); err != nil || !has(l) || len(l) != len(want) {
+		TicketHelperFail = fmt.Sprintf("TicketsForThirdParty(encoded token, %q) = %d tickets (err %v), the token has %d for that location and they must include %x", c3.Location, len(l), err, len(want), c3.Ticket[:8])
+	}
+	if l := m.TicketsForThirdParty(c3.Location); !has(l) || len(l) != len(want) {
+		TicketHelperFail = fmt.Sprintf("Macaroon.TicketsForThirdParty(%q) misses the caveat's ticket", c3.Location)
+	}
+	if len(want) > 0 {
+		if t, err := macaroon.ThirdPartyTicket(enc, c3.Location); err == nil && t != nil && !bytes.Equal(t, want[0]) {
+			TicketHelperFail = fmt.Sprintf("ThirdPartyTicket(encoded token, %q) returns bytes that are not the first ticket for that location", c3.Location)
+		}
+	}
+}
+
 func noteSeals(m *macaroon.Macaroon) {
 	for _, c := range m.UnsafeCaveats.Caveats {
 		c3, ok := c.(*macaroon.Caveat3P)
@@ -470,6 +506,7 @@ func (e *Env) Step(o Op) []int64 {
 		if !ok {
 			return nil
 		}
+		noteTicketHelpers(e.Slots[o.Src], c3)
 		_, dm, err := macaroon.VerifDischargeTicket(e.Key(o.K), LocStr(o.Loc), c3.Ticket, o.Proof)
 		if err != nil {
 			return []int64{0}
@@ -483,6 +520,9 @@ func (e *Env) Step(o Op) []int64 {
 		p, ok2 := e.Slots[o.Src]
 		if !ok || !ok2 {
 			return nil
+		}
+		if o.Src%2 == 1 {
+			return []int64{b2i(d.Bind(rawEncode(p)) == nil)} // the byte-level entry point
 		}
 		return []int64{b2i(d.BindToParentMacaroon(p) == nil)}
 	case "OVerify":
